@@ -33,7 +33,7 @@ def run_check(pid, tier, seed):
     try:
         info = CHECKS[pid](run)
     except cmrbuild.BuildError as e:
-        d = os.path.join(VERIF, "replays", pid)
+        d = os.path.join(O.OUT, "replays", pid)
         os.makedirs(d, exist_ok=True)
         p = os.path.join(d, "harness-build.txt")
         open(p, "w").write("# the correspondence harness no longer builds against /repo's working tree\n" + str(e)[-4000:])
